@@ -165,7 +165,7 @@ pub fn plan(ctx: &Ctx) -> Plan {
     let t = ctx.tier;
     Plan {
         props: vec![(Box::new(SanResolution), t.pick(120_000, 3_000_000))
-            , (Box::new(crate::fuzzdrv::target("notation_rt")), t.pick(0, 60_000))],
+            , (Box::new(crate::fuzzdrv::target("notation_rt")), t.pick(0, 10_000))],
         rule: "positions from weighted random play and the constructive builder (up to 20 extra men, so several like \
                pieces often attack one square); for every legal move an independent SAN writer emits all admissible \
                spellings (disambiguation none/file/rank/file+rank where it identifies the move uniquely, 'x' on captures, \
